@@ -745,7 +745,10 @@ class Tr:
                 env[nm] = ti
         else:
             nm = self.target_name(target)
-            if nm in env and env[nm] != t:
+            if nm in env and isinstance(t, tuple) and t[0] == "Opt" and t[1] == env[nm]:
+                lines2, c, t = self.unopt([], c, t)   # an Optional read into a plain variable: None raises later anyway
+                lines += lines2
+            elif nm in env and env[nm] != t:
                 c, t = self.coerce_to(c, t, env[nm])
             elif isinstance(t, tuple) and t[0] == "Dict" and t[1] == "?":
                 ann = self.spec.get("locals", {}).get(nm)
@@ -760,7 +763,12 @@ class Tr:
                 t = parse_type(ann)
                 c = f"(none : {lean_type(t)})"
             elif nm in self.spec.get("locals", {}):
-                c, t = self.coerce_to(c, t, parse_type(self.spec["locals"][nm]))
+                want = parse_type(self.spec["locals"][nm])
+                if isinstance(t, tuple) and t[0] == "Opt" and t[1] == want:
+                    lines2, c, t = self.unopt([], c, t)   # an Optional read where a value is needed: None raises
+                    lines += lines2
+                else:
+                    c, t = self.coerce_to(c, t, want)
             lines.append(f"let {nm} := {c}")
             env[nm] = t
         return lines + self.T(rest, env, k, loop)
@@ -1141,6 +1149,9 @@ class Tr:
             env[a] = self.params[a]
         if set(self.params) - set(args):
             raise Untranslatable(f"declared parameters {set(self.params) - set(args)} no longer exist")
+        # values of calls into code that is not translated (given as additional parameters, see `consts`)
+        for a, t in self.spec.get("extra_params", {}).items():
+            env[a] = parse_type(t)
         body = self.T(list(self.fn.body), env, lambda e: [self.result(e, "()")] if self.ret == "Unit" else ["throw Err.other  -- fell off the end without a value"])
         vs = list(env)
         if self.recursive:
